@@ -179,8 +179,23 @@ func (g *Gen) genFunc(fs *FuncSpec) {
 			henv := &Env{g: g, st: r.st, old: st0, vars: rv, pc: r.pc, hyp: true}
 			g.useAxiom(henv, u)
 		}
+		assumedLbl := map[string]bool{}
+		for _, l := range fs.IfaceAssumed {
+			assumedLbl[l] = true
+		}
+		for _, c := range ens {
+			// interface clauses that are definitional for this implementation: hypotheses at its returns
+			if c.Label != "" && assumedLbl[c.Label] && fs.Impl != "" {
+				henv := &Env{g: g, st: r.st, old: st0, vars: rv, pc: r.pc, hyp: true}
+				g.s.assumeUnder(r.pc, henv.tr(c.E, true).S)
+				g.trustedUse["definitional: "+fs.Impl+" clause `"+c.Label+"` names the outcome of "+fs.Key] = true
+			}
+		}
 		for k, c := range ens {
 			if !g.wantClause(c) {
+				continue
+			}
+			if c.Label != "" && assumedLbl[c.Label] && fs.Impl != "" {
 				continue
 			}
 			goal := env.tr(c.E, true)
